@@ -28,6 +28,10 @@ fn main() {
             imp::quiet_panics();
             std::process::exit(replay::replay(&a[2]));
         }
+        "ladder" if a.len() > 3 => {
+            imp::quiet_panics();
+            std::process::exit(checks::robust::rung_child(&a[2], a[3].parse().unwrap_or(8)));
+        }
         "selftest" => {
             std::process::exit(selftest::run(true));
         }
